@@ -2543,33 +2543,33 @@ MANIFEST = {
     "design_ref": "DESIGN.md 4/C10, 8.6, 8.10",
 }
 FINDINGS = [
-    {"status": "fixed", "key": "data.nat.nat_conv:eval-without-proof", "commit": "5156d76",
+    {"status": "fixed", "key": "data.nat.nat_conv:eval-without-proof", "commit": "eeb811d",
      "what": "nat_conv.eval reported |- 5 - 3 = 2 (nat_eval computes truncated subtraction) while get_proof_term raises "
              "ConvException: the fast evaluation claimed an equation the conversion cannot prove"},
-    {"status": "fixed", "key": "data.integer.int_norm_eq:refuses-domain-term", "commit": "0cb4eec",
+    {"status": "fixed", "key": "data.integer.int_norm_eq:refuses-domain-term", "commit": "fdcb0bd",
      "what": "int_norm_eq raised ConvException on EVERY input: it tested t.is_int() on the equation itself (type bool) "
              "instead of on its sides, so the procedure that decides integer equations in proof reconstruction decided nothing"},
-    {"status": "fixed", "key": "data.real.real_norm_conv:noncanonical", "commit": "153ad93",
+    {"status": "fixed", "key": "data.real.real_norm_conv:noncanonical", "commit": "410c6ec",
      "what": "real_norm_conv (and the real_norm macro's can_eval) gave x*y + x*z and x*z + x*y different normal forms: "
              "util.poly.compare_fst compared only the first factor and ignored powers"},
-    {"status": "fixed", "key": "real_norm-macro:rejects-equal-polynomials", "commit": "153ad93",
+    {"status": "fixed", "key": "real_norm-macro:rejects-equal-polynomials", "commit": "410c6ec",
      "what": "real_norm rejected x*y + x*z = x*z + x*y (same cause)"},
-    {"status": "fixed", "key": "data.integer.int_norm_conv:eval-differs", "commit": "357cd8b",
+    {"status": "fixed", "key": "data.integer.int_norm_conv:eval-differs", "commit": "f579979",
      "what": "int_norm_conv.eval reported from_poly(convert_to_poly(t)), which differs from the proved normal form on non-linear "
              "terms and raised TypeError on powers (int_power(base, n)); e.g. l + l - (l + j) + 0 + -(3 + j) * j"},
-    {"status": "fixed", "key": "data.integer.simp_full:noncanonical", "commit": "283de98",
+    {"status": "fixed", "key": "data.integer.simp_full:noncanonical", "commit": "27c072e",
      "what": "integer normaliser: j * j normalised to j ^ (1 + 1) but j ^ 2 stayed (exponent sum evaluated with int_eval_conv)"},
-    {"status": "fixed", "key": "data.integer.int_norm_conv:noncanonical", "commit": "283de98",
+    {"status": "fixed", "key": "data.integer.int_norm_conv:noncanonical", "commit": "27c072e",
      "what": "same cause, through int_norm_conv"},
-    {"status": "fixed", "key": "data.integer.int_neq_false_conv:lhs-differs", "commit": "365d16d",
+    {"status": "fixed", "key": "data.integer.int_neq_false_conv:lhs-differs", "commit": "5344acd",
      "what": "int_neq_false_conv on (-3 + 2) * (1 + 1) = 0 returned -2 = 0 <--> false (left side is not the input)"},
-    {"status": "fixed", "key": "data.proplogic.norm_full:noncanonical", "commit": "a1e2fd1",
+    {"status": "fixed", "key": "data.proplogic.norm_full:noncanonical", "commit": "afd353d",
      "what": "proplogic.norm_full: (D | A) | ~B | ~D gave A | D | ~B | ~D or A | true depending on the arrangement "
              "(complement only looked for at the head of the sorted tail)"},
-    {"status": "fixed", "key": "data.proplogic.norm_full:not-idempotent", "commit": "a1e2fd1",
+    {"status": "fixed", "key": "data.proplogic.norm_full:not-idempotent", "commit": "afd353d",
      "what": "proplogic.norm_full: A | true was a normal form that normalised further to true"},
-    {"status": "fixed", "key": "data.integer.int_gcd_compares:crash:IndexError", "commit": "b47f3a3",
+    {"status": "fixed", "key": "data.integer.int_gcd_compares:crash:IndexError", "commit": "aed4917",
      "what": "int_gcd_compares raised IndexError on 2 * l - -1 * l <= 3 * l - 4 * l + 4 * l + -3 (variables cancel)"},
-    {"status": "fixed", "key": "data.real.real_power_conv:crash:ValueError", "commit": "7f5bfb9",
+    {"status": "fixed", "key": "data.real.real_power_conv:crash:ValueError", "commit": "8c13b35",
      "what": "real_power_conv raised ValueError (sympy factorint) on (1 / 4) ^ (1 / 2)"},
 ]
